@@ -40,7 +40,7 @@ REAL = ["ecdsa._rwlock.RWLock/_LightSwitch (unmodified algorithm)", "ecdsa.ellip
         "ecdsa.numbertheory", "ecdsa.keys / ecdh / plug-in ECC proxies (library-level programs on NIST256p)"]
 STUBS = ["threading.Lock -> SimLock (parks threads, raises on release of an unlocked lock)",
          "thread scheduling -> Sched (baton passing)", "clock -> virtual (sim.sleep)", "RNG -> per-thread seeded stream"]
-PROBES = ["lin-two-sequential-orders", "lin-orders-differ", "runs-with-assertions-disabled", "two-lock-objects", "lock-sweep-run", "preempt-inside-mul_add", "two-readers-inside", "writer-parked-while-readers-inside", "reader-parked-behind-writer",
+PROBES = ["edwards-point-class", "lin-two-sequential-orders", "lin-orders-differ", "runs-with-assertions-disabled", "two-lock-objects", "lock-sweep-run", "preempt-inside-mul_add", "two-readers-inside", "writer-parked-while-readers-inside", "reader-parked-behind-writer",
           "preempt-inside-precompute", "preempt-inside-scale", "table-built-in-run", "clock-jump",
           "three-threads", "sweep-run", "instr-mode"]
 THOROUGH_ONLY_PROBES = ["sweep-run", "lock-sweep-run"]
@@ -115,7 +115,9 @@ def _sched_spec(r, horizon_hint=None, max_pre=4):
     return pre, [r.randrange(1000) for _ in range(24)]
 
 
-CURVES = {"toy": None, "secp112r1": "SECP112r1", "secp128r1": "SECP128r1", "nist256p": "NIST256p"}
+CURVES = {"toy": None, "secp112r1": "SECP112r1", "secp128r1": "SECP128r1", "nist256p": "NIST256p", "ed25519": "Ed25519"}
+# the twisted-Edwards point class of the same module has the same two pieces of shared mutable state
+EDW_OPS = ["mulG", "mulG", "scaleP", "scaleP", "xyP", "xyP", "eqPQ", "addPQ", "dblP", "mulP", "pickleG"]
 
 POINT_OPS = ["mulG", "mulG", "mulG", "muladd", "scaleP", "affP", "xyP", "eqPQ", "addPQ", "dblP", "pickleG", "mulP"]
 LIB_OPS = ["keygen", "signverify", "ecies", "ecdh", "verifyP", "verifyP", "dhshared", "dhshared", "precomputeP"]
@@ -125,7 +127,7 @@ def _prog(r, curve, order):
     n = r.choice([1, 1, 2, 3])
     prog = []
     for _ in range(n):
-        ops = POINT_OPS + (LIB_OPS if curve == "nist256p" else [])
+        ops = EDW_OPS if curve == "ed25519" else POINT_OPS + (LIB_OPS if curve == "nist256p" else [])
         op = r.choice(ops)
         if op in ("mulG", "mulP"):
             k = r.choice([2, 3, order - 1, order + 1, r.randrange(2, 2 * order)])
@@ -184,6 +186,8 @@ def gen(st, tier):
         return case
     if 90 <= i < 93:
         return _gen_lin(w, s)
+    if i == 95:
+        return _gen_curve(w, s, "ed25519")
     if i < 96:
         curve = "toy" if i < 90 else w.choice(["secp112r1", "secp128r1"])
     else:
@@ -217,7 +221,7 @@ def _gen_curve(w, s, curve, instr=False):
         a = w.randrange(3)
         progs = [[["dhshared", a]], [["dhshared", (a + 1 + w.randrange(2)) % 3]]]
     # make sure somebody uses the generator so that the table is built inside the run
-    if not any(op[0] in ("mulG", "muladd", "keygen", "signverify", "verifyP") for p in progs for op in p):
+    if curve != "ed25519" and not any(op[0] in ("mulG", "muladd", "keygen", "signverify", "verifyP") for p in progs for op in p):
         progs[0].insert(0, ["mulG", w.randrange(2, order)])
     pre, ch = _sched_spec(s)
     case = {"part": "curve", "curve": curve, "progs": progs, "world": w.getrandbits(32),
@@ -243,6 +247,9 @@ for _first, _second in ((["mulG", 0x1234567890ABCDEF1234567890ABCDEF], ["mulG", 
                         (["mulG", 0x1234567890ABCDEF1234567890ABCDEF], ["signverify", 1])):
     SWEEPS.append(("nist256p", _first, _second, 16384))
 SWEEPS.append(("nist256p", ["precomputeD", True], ["verifyD"], 128))
+SWEEPS.append(("ed25519", ["xyP"], ["scaleP"], 256))
+SWEEPS.append(("ed25519", ["scaleP"], ["xyP"], 256))
+SWEEPS.append(("ed25519", ["eqPQ"], ["scaleP"], 512))
 SWEEP_OFFSETS = []
 _acc = 0
 for _c in SWEEPS:
@@ -476,6 +483,33 @@ def _make_world(case):
     r = random.Random(case["world"])
     w = World()
     name = case["curve"]
+    w.edwards = name == "ed25519"
+    if w.edwards:
+        c = _curves.Ed25519
+        cf = c.curve
+        p = int(cf.p())
+        gx, gy, n = int(c.generator.x()), int(c.generator.y()), int(c.order)
+        w.curve_obj = c
+        w.p, w.a, w.b, w.n, w.g = p, None, None, n, (gx, gy)
+        w.cf = cf
+        mk = lambda x, y, z, gen=False: _ec.PointEdwards(cf, x * z % p, y * z % p, z, x * y % p * z % p, n, generator=gen)
+        w.G = mk(gx, gy, 1, True)
+        # affine coordinates of the shared points: computed with a throw-away generator, sequentially
+        tmp = mk(gx, gy, 1)
+        kp = r.randrange(2, n - 1)
+        kq = r.randrange(2, n - 1)
+        while kq == kp:
+            kq = r.randrange(2, n - 1)
+        w.kp, w.kq = kp, kq
+        pa = tmp * kp
+        qa = tmp * kq
+        w.Paff = (int(pa.x()), int(pa.y()))
+        w.Q2aff = (int(qa.x()), int(qa.y()))
+        w.P = mk(w.Paff[0], w.Paff[1], r.randrange(2, p))
+        w.Q = mk(w.Paff[0], w.Paff[1], r.randrange(2, p))
+        w.Q2 = mk(w.Q2aff[0], w.Q2aff[1], r.randrange(2, p))
+        w.seed = case["world"]
+        return w
     if name == "toy":
         p, a, b = 17, 2, 2
         gx, gy, n = 5, 1, 19
@@ -618,6 +652,9 @@ def _exec(w, op, tctx):
 def _ref(w, op):
     """independent expectation where defined, else the marker 'n/a'"""
     k = op[0]
+    if getattr(w, "edwards", False):
+        # no independent Edwards arithmetic here: only what is known by construction
+        return w.Paff if k in ("scaleP", "xyP") else ((True, False) if k == "eqPQ" else "n/a")
     g, p, a, n = w.g, w.p, w.a, w.n
     if k == "mulG":
         return refp256.mul(op[1] % n, g, p, a)
@@ -657,7 +694,9 @@ def _entropy(seed, tid):
 
 def _table(G):
     t = getattr(G, "_PointJacobi__precompute", None)
-    return None if t is None else [(int(x), int(y)) for x, y in t]
+    if t is None:
+        t = getattr(G, "_PointEdwards__precompute", None)
+    return None if t is None else [tuple(int(v) for v in e) for e in t]
 
 
 def _run_curve(case, out):
@@ -740,6 +779,8 @@ def _run_curve(case, out):
                 out.probes["preempt-inside-mul_add"] += 1
         if len(progs) >= 3:
             out.probes["three-threads"] += 1
+        if case["curve"] == "ed25519":
+            out.probes["edwards-point-class"] += 1
         if case.get("sweep"):
             out.probes["sweep-run"] += 1
         if case.get("sweep_cfg") is not None:
